@@ -14,7 +14,7 @@ pub fn property() -> Property {
     Property {
         id: "C11",
         level: "exploration",
-        rule: "(1) hosts = ALL strings of 1..3 labels over {a,b,ab,ba,xa} + IPv4/bracketed IPv6 literals + mixed-case spellings + four names written with a trailing dot; no-proxy lists = ALL lists of <= 2 entries over {'', a, .a, b.a, A, ' a ', a., xa, an IPv4 literal, a bracketed IPv6 literal, ' .b'}; x scheme x {both proxies, http only, disabled flag}: exhaustive, once through ProxySettingsBuilder (entries verbatim) and once through the NO_PROXY environment variable (entries normalised as the statement says). (2) environment: assignments of the 8 variables {http,https,all,no}_proxy x lower/upper case over 7 values each {unset, empty, blank, valid http URL, valid https URL, socks5 URL, garbage} - all 7^8 in thorough, 20 000 sampled in quick; each shard process owns its environment; while each environment is in force a default-settings request (free function / fresh Session alternating) is sent as well and the address it dials must be an acceptable decision for THAT environment (thousands of different environments per process: stale process-wide state shows). (3) end-to-end send() through hook H1: the address dialled agrees with the decision. Oracle: reference decision function and environment reader written from the statement, returning the SET of acceptable outcomes (singleton except in documented gray cases). Non-trivial: a proxy is configured for the scheme; distinct = hash(configuration, host).",
+        rule: "(1) hosts = ALL strings of 1..3 labels over {a,b,ab,ba,xa} + IPv4/bracketed IPv6 literals + mixed-case spellings + four names written with a trailing dot; no-proxy lists = ALL lists of <= 2 entries over {'', a, .a, b.a, A, ' a ', a., xa, an IPv4 literal, a bracketed IPv6 literal, ' .b'}; x scheme x {both proxies, http only, disabled flag}: exhaustive, once through ProxySettingsBuilder (entries verbatim) and once through the NO_PROXY environment variable (entries normalised as the statement says). (2) environment: assignments of the 8 variables {http,https,all,no}_proxy x lower/upper case over 7 values each {unset, empty, blank, valid http URL, valid https URL, socks5 URL, garbage, host:port without a scheme (name / IPv4)} for the six proxy variables, 7 values for the two no-proxy variables - all 9^6 x 7^2 = 26 040 609 in thorough, 20 000 sampled in quick; each shard process owns its environment; while each environment is in force a default-settings request (free function / fresh Session alternating) is sent as well and the address it dials must be an acceptable decision for THAT environment (thousands of different environments per process: stale process-wide state shows). (3) end-to-end send() through hook H1: the address dialled agrees with the decision. Oracle: reference decision function and environment reader written from the statement, returning the SET of acceptable outcomes (singleton except in documented gray cases). Non-trivial: a proxy is configured for the scheme; distinct = hash(configuration, host).",
         assumptions: &["gray (executed, not judged): builder entries with blanks / leading or trailing dots / wildcards, sub-'domains' of IP literals, a blank or invalid lower-case variable next to a valid upper-case one, padded or listed '*' in NO_PROXY"],
         min_nontrivial: |t| t.pick(20_000, 200_000),
         gens,
@@ -63,7 +63,7 @@ fn gens(tier: Tier) -> Vec<Gen> {
     vec![
         Gen { name: "hostlist-builder", count: hostlist_count(), exhaustive: true, run: run_hostlist_builder },
         Gen { name: "hostlist-env", count: hostlist_count(), exhaustive: true, run: run_hostlist_env },
-        Gen { name: "env", count: tier.pick(20_000, 7u64.pow(8)), exhaustive: tier == Tier::Thorough, run: run_env },
+        Gen { name: "env", count: tier.pick(20_000, ENV_SPACE), exhaustive: tier == Tier::Thorough, run: run_env },
         Gen { name: "other-schemes", count: (5 * 3 * 2 * 2) as u64, exhaustive: true, run: run_other_schemes },
         Gen { name: "env-non-unicode", count: (4 * 4) as u64, exhaustive: true, run: run_env_non_unicode },
         Gen { name: "end-to-end", count: tier.pick(200, 2_000), exhaustive: false, run: run_e2e },
@@ -222,6 +222,9 @@ fn run_hostlist_env(ctx: &mut Ctx, _rng: &mut Rng, index: u64) {
     ctx.sample(|| json!({"path": "env", "url": url.as_str(), "NO_PROXY": raw, "for_url": got.as_ref().map(|u| u.as_str().to_owned())}));
 }
 
+/// 9 values for each of the six proxy variables x 7 for each of the two no-proxy variables
+const ENV_SPACE: u64 = 9 * 9 * 9 * 9 * 9 * 9 * 7 * 7;
+
 fn proxy_value(var: usize, k: u64) -> Option<String> {
     match k {
         0 => None,
@@ -230,6 +233,9 @@ fn proxy_value(var: usize, k: u64) -> Option<String> {
         3 => Some(format!("http://p{var}.test:3128")),
         4 => Some(format!("https://s{var}.test")),
         5 => Some(format!("socks5://k{var}.test:1080")),
+        // without a scheme: not a usable proxy URL (`host:port` parses as scheme `host`)
+        7 => Some(format!("proxy{var}.local:3128")),
+        8 => Some("10.1.2.3:8080".to_owned()),
         _ => Some("not a url at all".to_owned()),
     }
 }
@@ -248,12 +254,13 @@ fn noproxy_value(k: u64) -> Option<String> {
 
 fn run_env(ctx: &mut Ctx, rng: &mut Rng, index: u64) {
     // quick: sampled assignments; thorough: the index enumerates all 7^8
-    let code = if ctx.tier == Tier::Quick { rng.below(7u64.pow(8)) } else { index };
+    let code = if ctx.tier == Tier::Quick { rng.below(ENV_SPACE) } else { index };
     let mut digits = [0u64; 8];
     let mut c = code;
-    for d in digits.iter_mut() {
-        *d = c % 7;
-        c /= 7;
+    for (i, d) in digits.iter_mut().enumerate() {
+        let base = if i < 6 { 9 } else { 7 };
+        *d = c % base;
+        c /= base;
     }
     clear_env();
     let mut vals: Vec<Option<String>> = Vec::new();
